@@ -182,6 +182,17 @@ func c18GenReq(t *rapid.T) c18ReqCase {
 	n := rapid.IntRange(0, 3).Draw(t, "nauth")
 	for i := 0; i < n; i++ {
 		h := rapid.SampledFrom(c18Headers).Draw(t, "header")
+		if rapid.Bool().Draw(t, "structured") {
+			// a well-formed header from small pools, so that several headers of one request relate to each
+			// other: the same origin, another origin, the same origin in another letter case or spelling
+			h = fmt.Sprintf("X-Matrix origin=%q,key=%q,sig=%q",
+				rapid.SampledFrom([]string{"a.example", "a.example", "A.Example", "a.example.", "a.example:8448", "b.example", "A.EXAMPLE"}).Draw(t, "hOrigin"),
+				rapid.SampledFrom([]string{"ed25519:1", "ed25519:1", "ed25519:2", "ED25519:1", ""}).Draw(t, "hKey"),
+				rapid.SampledFrom([]string{"AAAA", strings.Repeat("A", 86), "", "!"}).Draw(t, "hSig"))
+			if rapid.Bool().Draw(t, "hDest") {
+				h += fmt.Sprintf(",destination=%q", rapid.SampledFrom([]string{"local.example", "Local.Example", "other.example", ""}).Draw(t, "hDestV"))
+			}
+		}
 		if rapid.IntRange(0, 3).Draw(t, "damage") == 0 && len(h) > 0 {
 			pos := rapid.IntRange(0, len(h)-1).Draw(t, "pos")
 			switch rapid.IntRange(0, 2).Draw(t, "how") {
